@@ -228,7 +228,7 @@ pub fn generate(seed: u64, _prop: &str, _thorough: bool) -> GarbageTrace {
         let spec = gen_spec(&mut rng, pb, p, max_syms, 75);
         let decs = reprs_for(&spec).1;
         let repr = if bias.chance(2, 3) {
-            let pref: Vec<Repr> = decs.iter().cloned().filter(|r| matches!(r, Repr::Lookup | Repr::GenLookup | Repr::Lazy | Repr::GenDec)).collect();
+            let pref: Vec<Repr> = decs.iter().cloned().filter(|r| matches!(r, Repr::Lookup | Repr::GenLookup | Repr::Lazy | Repr::GenDec | Repr::LookupCtor | Repr::NonContigLookupCtor | Repr::NonContigLookupBack)).collect();
             if pref.is_empty() { *rng.pick(&decs) } else { *rng.pick(&pref) }
         } else {
             *rng.pick(&decs)
